@@ -19,4 +19,22 @@ CONTRACTS = [
              "returned unchanged; everything else is rejected with ValueError and with no other exception class",
         bounded="str inputs (int(s, 10) / float(s) parsing) leave the VC generator's subset: bounded stand-in only",
     ),
+    Contract(
+        "py_gql.schema.scalars:coerce_float",
+        cases={
+            "int": {"maybe_float": "int"},
+            "bool": {"maybe_float": "bool"},
+            "float": {"maybe_float": "float"},
+            "none": {"maybe_float": "none"},
+        },
+        returns="float",
+        ensures=[("finite", "float_is_finite(result)"),
+                 ("accepted-only-if-representable", "float_coercible(maybe_float)"),
+                 ("a-float-is-returned-unchanged", "same_float_if_float(maybe_float, result)")],
+        raises={"ValueError": [("rejected-only-if-not-a-finite-number", "not float_coercible(maybe_float)")]},
+        note="C07 / C10: a Float handed to a resolver or written into a response is a finite double - NaN and the infinities (which strict JSON cannot "
+             "carry) and null are rejected with ValueError and with no other exception class; every finite float is accepted and returned unchanged, "
+             "every integer below 2**1024 in magnitude is accepted",
+        bounded="str inputs (float(s) parsing) leave the VC generator's subset: bounded stand-in only",
+    ),
 ]
